@@ -47,6 +47,10 @@ MUTANTS = {
     "m20": ("C20", [sub("declarations.py", "                if i.extends(j, 0)  # non-strict extends", "                if i == j")]),
     # reverts of fix: commits
     "r03": ("C03", [sub("ro.py", "    resolver.mro()\n    return not resolver.had_inconsistency", "    return not resolver.had_inconsistency")]),
+    "r01": ("C01", [("revert", "888af04")]), "r13": ("C13", [("revert", "604cba1")]), "r15": ("C15", [("revert", "d0b9d15")]),
+    "r18": ("C18", [("revert", "f2168a3")]), "r16": ("C16", [("revert", "b1af53e")]), "r11py": ("C11", [("revert", "bf116ff")]),
+    "r06": ("C06", [("revert", "dbf66b8")]), "r05": ("C05", [("revert", "f6085d3")]), "r11c": ("C11", [("revert", "eb449ba")]),
+    "r06b": ("C05", [("revert", "dbf66b8")]),
     # extras
     "x03a": ("C03", [sub("ro.py", "        if len(C.__bases__) == 1:\n            self.__mro = [C] + memo[C.__bases__[0]].mro()", "        if len(C.__bases__) == 1:\n            self.__mro = memo[C.__bases__[0]].mro() and [C] + memo[C.__bases__[0]].mro()[::1]")]),
 }
@@ -61,7 +65,13 @@ def make_copy():
 def apply(mid, d):
     if mid in MUTANTS:
         prop, edits = MUTANTS[mid]
-        for _, fn, old, new, nth in edits:
+        for e in edits:
+            if e[0] == "revert":
+                diff = subprocess.run(["git", "-C", REPO, "show", e[1]], capture_output=True, text=True).stdout
+                r = subprocess.run(["patch", "-R", "-p1", "-s"], input=diff, cwd=d, capture_output=True, text=True)
+                assert r.returncode == 0, (mid, r.stdout, r.stderr)
+                continue
+            _, fn, old, new, nth = e
             p = os.path.join(d, "src", "zope", "interface", fn)
             s = open(p).read()
             assert old in s, (mid, fn, "pattern not found")
